@@ -168,8 +168,10 @@ def reorderLoop (fx : Fixes) : List Nat → List CC → Nat → Step
           | r => r
 
 /-- `isExclusion` (the predicate as evaluated by the translator: closed ranges) -/
-def isExcl (cp : Nat) : Bool :=
-  (List.range UniCompos.exclN).any fun k => cell 32 UniCompos.excl (2 * k) ≤ cp && cp ≤ cell 32 UniCompos.excl (2 * k + 1)
+def exclRanges : List (Nat × Nat) :=
+  (List.range UniCompos.exclN).map fun k => (cell 32 UniCompos.excl (2 * k), cell 32 UniCompos.excl (2 * k + 1))
+
+def isExcl (cp : Nat) : Bool := exclRanges.any fun r => r.1 ≤ cp && cp ≤ r.2
 
 /-- the sorted-list search of `_composite_cp` (`n` pairs from index `off`) -/
 def searchList (key : Nat) : Nat → Nat → Nat
